@@ -671,7 +671,11 @@ class SSHStreamSession(Generic[AnyStr]):
     async def drain(self, datatype: DataType) -> None:
         """Wait for data written to the channel to drain"""
 
+        blocked = False
+
         while self._should_block_drain(datatype):
+            blocked = True
+
             try:
                 assert self._loop is not None
                 waiter: _WaiterFuture = self._loop.create_future()
@@ -688,6 +692,10 @@ class SSHStreamSession(Generic[AnyStr]):
 
             if exc:
                 raise exc
+        elif blocked and self._chan and self._chan.was_write_discarded():
+            # Writing was only resumed because the peer closed the channel
+            # and the data being waited for was discarded
+            raise BrokenPipeError()
 
 
 class SSHClientStreamSession(SSHStreamSession[AnyStr],
